@@ -112,6 +112,40 @@ theorem C15_zone25_witness :
     (send1 none "http://[::1%2525a]/").toOption.map (·.dialHost) = some (lit "::1%a") := by
   decide +kernel
 
+/-
+Full statement: the pool's second `_normalize_host` leaves the host `parse_url` returned alone (so that
+`h' = hst` in the theorems above and below).  FALSE for an IPv6 zone id starting with `25`
+(`C15_zone25_witness`).  Proved for the other shapes of host text without a zone id (`StableHost`): a
+lower-case ASCII name that is not a bracketed IPv6 literal (reg-names, incl. A-labels), a dotted
+quad, a lower-case bracketed IPv6 literal without zone.  Not proved: literals with a zone id not
+starting with `25` (checked by the correspondence run), and that `parse_url` only returns such hosts.
+-/
+theorem C15_host_stable_partial (idna : Str → Option Str) (hst s : Str) (hsch : s = http ∨ s = https)
+    (h : StableHost hst) : Url.normalizeHost idna (some hst) (some s) = .ok (some hst) :=
+  normalizeHost_stable idna hst s hsch h
+
+/-- hence, for these hosts, the socket is opened to the URL's own host text without its brackets and
+the URL's port (or the scheme default) -/
+theorem C15_connect_target_stable (idna : Str → Option Str) (extra : PoolKey.Ctx) (u : Url.Url) (r : Route)
+    (s hst : Str) (hs : u.scheme = some s) (hsch : s = http ∨ s = https) (hh : u.host = some hst)
+    (hp0 : u.port ≠ some 0) (hstab : StableHost hst)
+    (h : routeWith idna none extra u = .ok r) :
+    r.dialPort = u.port.getD (schemeDefault s) ∧ r.dialHost = dialName (unbracket hst) ∧
+    (hst.head? ≠ some 91 → r.dialHost = hst) ∧
+    (∀ a, hst = 91 :: a ++ [93] → a.head? ≠ some 91 → r.dialHost = a) := by
+  obtain ⟨h1, h', hn, h2, h3, h4⟩ := C15_connect_target_partial idna extra u r s hst hs hsch hh hp0 h
+  rw [C15_host_stable_partial idna hst s hsch hstab] at hn
+  simp only [Except.ok.injEq, Option.some.injEq] at hn
+  subst hn
+  exact ⟨h1, h2, h3, h4⟩
+
+-- non-vacuity: the three shapes
+example : StableHost (lit "xn--bcher-kva.example.com.") := Or.inl (by decide +kernel)
+example : StableHost (lit "10.0.0.255") := Or.inr (Or.inl (by decide +kernel))
+example : StableHost (lit "[2001:db8::8:800:200c:417a]") := Or.inr (Or.inr (by decide +kernel))
+example : (Url.parseUrl (lit "http://[2001:DB8::8:800:200C:417A]:8080/")).toOption.map (·.host) =
+    some (some (lit "[2001:db8::8:800:200c:417a]")) := by decide +kernel
+
 /-- **Host header (direct).**  Exactly one `Host` line; it is computed from the same pool host `D`
 (the re-normalised URL host without its brackets) and the same port as the connect target: the socket
 goes to `dialName D`, `r.dialPort`; `Host` is `D` without trailing dots — for a name containing `:`
@@ -240,6 +274,22 @@ example : (send1 none "http://uSr:pw@example.com?q=1#frag").toOption.map (·.tar
 example : (send1 (some pxHttp) "https://uSr@example.com/a/./b/../c?x y#frag").toOption.map (·.target) =
     some (lit "/a/c?x%20y") := by decide +kernel
 
+/-- **The request bytes (direct)**: request line with the origin-form target, the automatic `Host`,
+`Accept-Encoding: identity`, the default `User-Agent`, blank line — nothing else (in particular no
+byte of the userinfo or the fragment: the right-hand side does not mention them). -/
+theorem C15_request_bytes_direct (idna : Str → Option Str) (extra : PoolKey.Ctx) (u : Url.Url) (r : Route)
+    (s hst : Str) (hs : u.scheme = some s) (hsch : s = http ∨ s = https) (hh : u.host = some hst)
+    (h : routeWith idna none extra u = .ok r) :
+    ∃ hv, r.hostHeader = [hv] ∧
+      r.request = Wire.headBytes [methodGet ++ [32] ++ r.target ++ [32] ++ Wire.httpVsn,
+        Wire.hdrLine (lit "Host", hv), Wire.hdrLine aeHdr, Wire.hdrLine uaHdr] := by
+  obtain ⟨h', tr, -, -, -, -, -, -, -, htg, hhh, hreq, -⟩ := route_direct_scheme hs hsch hh h
+  exact ⟨_, hhh, by rw [hreq, htg]; rfl⟩
+
+example : (send1 none "http://u:p@h/a?b#c").toOption.map (·.request) =
+    some (lit "GET /a?b HTTP/1.1\r\nHost: h\r\nAccept-Encoding: identity\r\nUser-Agent: " ++ Gen.defaultUserAgent ++
+      lit "\r\n\r\n") := by decide +kernel
+
 /-
 Full statement (property text) for forwarding routes: the target names scheme, host, port, path and
 query — never the fragment or the userinfo.  FALSE: `ProxyManager.urlopen` sends `parse_url(url).url`
@@ -258,7 +308,7 @@ theorem C15_target_forward_partial (idna : Str → Option Str) (extra : PoolKey.
     (u.auth = none → u.fragment = none →
       r.target = s ++ [58, 47, 47] ++ hst ++ (match u.port with | some n => 58 :: Url.natToDec n | none => []) ++
         (match u.path with | some x => x | none => []) ++ qSuffix u.query) := by
-  obtain ⟨n, pl, -, -, -, -, -, hcon, htg, -⟩ :=
+  obtain ⟨n, pl, -, -, -, -, -, -, -, -, -, -, hcon, htg, -⟩ :=
     route_forward_ok (by rcases hsch with rfl | rfl <;> simp [hs]) hf h
   refine ⟨hcon, htg, ?_⟩
   intro ha hfr
@@ -309,11 +359,55 @@ theorem C15_case_default_port_same_pool_same_bytes (idna : Str → Option Str) (
   rw [hp, hs]
   rcases hsch with rfl | rfl <;> decide
 
+/-- **The scheme's letter case does not influence the parse** (text level): two URL texts that differ
+only in the case of a well-formed scheme (`SchemeText`: a letter, then letters, digits, `+`, `-`)
+parse to the same `Url` (or fail alike), hence are routed alike. -/
+theorem C15_scheme_case_parse (idna : Str → Option Str) (sc₁ sc₂ rest : Str) (h1 : SchemeText sc₁)
+    (hl : lower sc₁ = lower sc₂) (m : Mgr) (carried : List (Str × Str)) :
+    Url.parseUrlWith idna (sc₁ ++ 58 :: rest) = Url.parseUrlWith idna (sc₂ ++ 58 :: rest) ∧
+    routeUrl idna m (sc₁ ++ 58 :: rest) carried = routeUrl idna m (sc₂ ++ 58 :: rest) carried := by
+  have := parseUrlWith_scheme_case idna sc₁ sc₂ rest h1 hl
+  refine ⟨this, ?_⟩
+  unfold routeUrl
+  rw [this]
+
+example : SchemeText (lit "hTTpS") := ⟨104, lit "TTpS", by decide, by decide, by decide⟩
+example : lower (lit "hTTpS") = lower (lit "https") := by decide
+
 -- non-vacuity: "https://example.com:443/p" and "https://example.com/p", directly and tunnelled
 example : (send1 none "https://example.com:443/p") = (send1 none "https://EXAMPLE.com/p") := by decide +kernel
 example : (send1 (some pxHttp) "https://example.com:443/p").toOption.map (·.request) =
     (send1 (some pxHttp) "HTTPS://example.COM/p").toOption.map (·.request) := by decide +kernel
 example : ((send1 none "https://example.com:443/p").toOption.map (·.pool)).isSome = true := by decide +kernel
+
+/-- **Same pool, sequentially.**  For every manager state reachable from a fresh manager (`Mgr.Sync`,
+preserved by `route`): repeating a served request — or sending the same URL with the scheme default
+written out (direct and tunnelled routes) — is served by the *same pool* (same id, same key), with
+the identical observation, and leaves the manager as it is. -/
+theorem C15_same_pool_again (idna : Str → Option Str) (m m1 : Mgr) (u : Url.Url) (c : List (Str × Str))
+    (r : Route) (s : Str) (hw : m.Sync) (h : route idna m u c = (m1, .ok r))
+    (hs : u.scheme = some s) (hsch : s = http ∨ s = https) (hp : u.port = none)
+    (hnf : isForwarding m.proxy u.scheme = false) :
+    route idna m1 u c = (m1, .ok r) ∧
+    route idna m1 { u with port := some (schemeDefault s) } c = (m1, .ok r) ∧ m1.Sync := by
+  obtain ⟨h1, h2⟩ := route_repeat hw h
+  refine ⟨h1, ?_, h2⟩
+  have hpx : m1.proxy = m.proxy := by
+    have := route_proxy idna m u c hw
+    rw [h] at this; exact this
+  rw [C15_case_default_port_same_pool_same_bytes idna m1 u c s hs hsch hp (hpx ▸ hnf)]
+  exact h1
+
+/-- the invariant is that of every reachable state: it holds initially and `route` keeps it -/
+theorem C15_sync_reachable (idna : Str → Option Str) (proxy : Option ProxyCfg) (extra : PoolKey.Ctx) :
+    (Mgr.init proxy extra).Sync ∧
+    ∀ m u c, m.Sync → (route idna m u c).1.Sync :=
+  ⟨Mgr.sync_init proxy extra, fun m u c hw => route_sync idna m u c hw⟩
+
+-- non-vacuity: two requests through one manager: the second lands in pool 0 as well
+example : (hop2 none "https://example.com/p" "https://EXAMPLE.com:443/p").toOption.map (·.pool) = some 0 ∧
+    (hop2 none "https://example.com/p" "http://example.com/p").toOption.map (·.pool) = some 1 := by
+  decide +kernel
 
 /-- known finding `equiv:forward:bytes:explicit-default-port`: through a forwarding proxy
 "http://example.com:80/p" and "http://example.com/p" differ in the target and in the `Host` header -/
@@ -383,6 +477,68 @@ theorem C15_tunnel_ipv6_host_witness :
 
 /-! ## forwarding routes: the `Host` header -/
 
+/-- **Forwarding: the address.**  The socket goes to the proxy: to the proxy host as `ProxyManager`
+parsed it when the proxy or the URL is https (the carrying connection is built from `proxy.host`,
+`proxy.port` directly); for an http URL through an http proxy the pool *is* the proxy's pool, so the
+proxy host is re-normalised like any pool host (`ph'`, brackets removed). -/
+theorem C15_forward_connect (idna : Str → Option Str) (extra : PoolKey.Ctx) (p : ProxyCfg) (ph : Str)
+    (u : Url.Url) (r : Route) (hsc : u.scheme = some http ∨ u.scheme = some https)
+    (hph : p.host = some ph) (hps : p.scheme = http ∨ p.scheme = https) (hpp : p.port ≠ 0)
+    (hf : isForwarding (some p) u.scheme = true)
+    (h : routeWith idna (some p) extra u = .ok r) :
+    r.connect = none ∧ r.dialPort = p.port ∧
+    ((p.scheme = https ∨ u.scheme = some https) → r.dialHost = dialName ph) ∧
+    (p.scheme = http → u.scheme = some http →
+      ∃ ph', Url.normalizeHost idna (some ph) (some http) = .ok (some ph') ∧
+        r.dialHost = dialName (unbracket ph')) := by
+  obtain ⟨n, pl, hst, pv, -, -, -, ht1, ht2, ht3, hdh, hdp, hcon, -⟩ := route_forward_ok hsc hf h
+  have hpo : PoolKey.portOr (.int p.port) p.scheme = .int p.port := by
+    have : ((p.port : Int) != 0) = true := by simp; omega
+    simp [PoolKey.portOr, PoolKey.Val.truthy, this]
+  rcases hsc with hu | hu
+  · -- http URL: the pool is the proxy's
+    have hne : ¬ (u.scheme = some https) := by rw [hu]; decide
+    simp only [poolTarget, hne, if_false] at ht1 ht2 ht3
+    rw [hph] at ht1
+    simp only [Option.some.injEq] at ht1
+    subst ht1
+    have hso : schemeOrO (some p.scheme) = p.scheme := by
+      rcases hps with e | e <;> rw [e] <;> decide
+    rw [hso] at ht2 ht3
+    rw [hpo] at ht2
+    simp only [PoolKey.Val.int.injEq] at ht2
+    subst ht2
+    simp only [Int.toNat_natCast] at ht3
+    obtain ⟨ph', hn', rfl⟩ := newPool_ok ht3
+    rcases hps with e | e
+    · have hb : (p.scheme == https) = false := by rw [e]; decide
+      simp only [fwdAddr, hb, Bool.false_eq_true, if_false] at hdh hdp
+      refine ⟨hcon, hdp, ?_, ?_⟩
+      · rintro (e2 | e2)
+        · rw [e] at e2; exact absurd e2 (by decide)
+        · exact absurd e2 hne
+      · intro _ _
+        exact ⟨ph', by rw [← e]; exact hn', hdh⟩
+    · have hb : (p.scheme == https) = true := by rw [e]; decide
+      simp only [fwdAddr, hb, if_true, proxyAddr, hph] at hdh hdp
+      refine ⟨hcon, hdp, fun _ => hdh, ?_⟩
+      intro e2; rw [e] at e2; exact absurd e2 (by decide)
+  · -- https URL (forwarding https proxy): the origin's pool, the connection goes to the proxy
+    rw [poolTarget_https _ _ hu] at ht1 ht2 ht3
+    have hso : schemeOrO u.scheme = https := by rw [hu]; decide
+    simp only [hso] at ht3
+    obtain ⟨h', -, rfl⟩ := newPool_ok ht3
+    have hb : (https == https) = true := by decide
+    simp only [fwdAddr, hb, if_true, proxyAddr, hph] at hdh hdp
+    refine ⟨hcon, hdp, fun _ => hdh, ?_⟩
+    intro _ e2; rw [hu] at e2; exact absurd e2 (by decide)
+
+example : (send1 (some pxHttp) "http://Example.com:8080/a").toOption.map (fun r => (r.dialHost, r.dialPort)) =
+    some (lit "proxy.example", 3128) := by decide +kernel
+example : (send1 (some pxHttpsFwd) "https://Example.com:8080/a").toOption.map
+    (fun r => (r.dialHost, r.dialPort, r.tls)) = some (lit "proxy.example", 443, [lit "proxy.example"]) := by
+  decide +kernel
+
 /-- **Host header (forwarding, fresh request).**  `_set_proxy_headers` supplies `Host: <netloc>`, where
 `netloc` is `host[:port]` of the URL with the port as written (an explicit default port stays, port 0
 goes: `Url.netloc`); this one caller header replaces `http.client`'s automatic one, and it is what
@@ -394,7 +550,7 @@ theorem C15_host_header_forward (idna : Str → Option Str) (extra : PoolKey.Ctx
     ∃ n, u.netloc = some n ∧ n ≠ [] ∧
       (n ≠ Gen.skipHeader → r.hostHeader = [n]) ∧
       r.kwHeaders = [acceptHdr, (lit "Host", n)] := by
-  obtain ⟨n, pl, hn, hne, -, -, -, -, -, hhh, -, hkw⟩ := route_forward_ok hsc hf h
+  obtain ⟨n, pl, -, -, hn, hne, -, -, -, -, -, -, -, -, hhh, -, hkw⟩ := route_forward_ok hsc hf h
   refine ⟨n, hn, hne, ?_, hkw⟩
   intro hsk
   rw [hhh]
